@@ -22,6 +22,21 @@ impl Wake for NoopWake {
     fn wake(self: Arc<Self>) {}
 }
 
+thread_local! {
+    static WAKE_MD: std::cell::Cell<Option<&'static MainDevice<'static>>> = const { std::cell::Cell::new(None) };
+    /// (slot, status of the slot at the moment its waiting task was woken)
+    static WAKE_LOG: std::cell::RefCell<Vec<(usize, u8)>> = const { std::cell::RefCell::new(Vec::new()) };
+}
+
+/// The waker of the task waiting on one slot: notes what the woken task would find if it ran at once.
+struct SlotWake(usize);
+impl Wake for SlotWake {
+    fn wake(self: Arc<Self>) {
+        let st = WAKE_MD.with(|m| m.get().map(|md| md.verif_slot(self.0).0).unwrap_or(255));
+        WAKE_LOG.with(|l| l.borrow_mut().push((self.0, st)));
+    }
+}
+
 fn command(kind: u8, a: u32, r: u16) -> Command {
     match kind {
         0 => Command::Nop,
@@ -87,6 +102,8 @@ struct World {
     mode: String,
     /// spec-oracle notes (violations seen directly on the implementation)
     oracle: Vec<String>,
+    /// the future of this slot returned Pending at its last poll (its waker is registered)
+    waiting: Vec<bool>,
     /// windows entered: abandonment / expiry while TX or RX is inside the buffer, etc.
     windows: Vec<String>,
     /// inner operations to run at each site of the operation that is currently windowed
@@ -375,6 +392,7 @@ impl World {
         let f = self.created[i].take().unwrap();
         let fut = f.mark_sendable(self.md, Duration::from_micros(timeout_us), retries);
         self.futs[i] = Some(FutH { fut, deadline: clock::now_us() + timeout_us, timeout_us, retries, polled: false });
+        self.waiting[i] = false;
         self.expect[i] = Some(encode_frame(&self.building[i]));
         self.snap();
     }
@@ -408,8 +426,11 @@ impl World {
         self.ops.push(format!("{{\"o\":\"txdone\",\"i\":{},\"oc\":{}}}", i, outcome));
         let s = self.sending[i].take().unwrap();
         let mut seen = Vec::new();
+        let md = self.md;
+        let mut status_inside = 0u8;
         let _ = s.send_blocking(|b| {
             seen = b.to_vec();
+            status_inside = md.verif_slot(i).0;
             match outcome {
                 0 => Ok(b.len()),
                 1 => Ok(b.len().saturating_sub(1)),
@@ -417,6 +438,12 @@ impl World {
             }
         });
         self.obs.extend(seen.iter().map(|x| *x as i64));
+        if matches!(status_inside, 4 | 5 | 6) {
+            // while the network is being handed the bytes the slot belongs to the transmit side; a slot
+            // already marked Sent (or in receive) can take a response now (the deadline-expiry
+            // releases seen as status 0/1/2 are C06's known tx-window finding, reported there)
+            self.oracle.push(format!("status-party-mismatch: slot {} has status {} while the transmit side is handing its bytes to the network (a response could be written over them)", i, status_inside));
+        }
         if let Some(e) = self.expect_tx[i].take() {
             if e != seen {
                 self.oracle.push(format!("tx-corrupt: slot {} transmitted bytes that are not the frame its request built ({} vs {} bytes)", i, seen.len(), e.len()));
@@ -442,6 +469,8 @@ impl World {
             self.ops.push(format!("{{\"o\":\"rx\",\"bytes\":{}}}", bytes_json(bytes)));
             self.win_rx = None;
         }
+        // only wake-ups issued by this receive are examined (timer wake-ups are not its business)
+        WAKE_LOG.with(|l| l.borrow_mut().clear());
         let res = std::panic::catch_unwind(std::panic::AssertUnwindSafe(|| rx.receive_frame(bytes)));
         self.rx = Some(rx);
         self.win_rx = None;
@@ -467,9 +496,19 @@ impl World {
             }
         };
         let after = self.full_snapshot();
+        // wake-ups during this receive: the woken task must find its response (status RxDone)
+        let wakes: Vec<(usize, u8)> = WAKE_LOG.with(|l| l.borrow_mut().drain(..).collect());
+        for (slot, st) in &wakes {
+            if *st != 6 {
+                self.oracle.push(format!("wake-before-done: the task waiting on slot {} was woken while the slot's status was {} - it finds no response and nobody wakes it again", slot, st));
+            }
+        }
         if code == 1 && bytes.len() >= 16 {
             let plen = (u16::from_le_bytes([bytes[14], bytes[15]]) & 0x7ff) as usize;
             for k in 0..self.n {
+                if after[k].0 == 6 && before[k].0 != 6 && self.waiting[k] && !windowed && !self.in_window && !wakes.iter().any(|(s, _)| *s == k) {
+                    self.oracle.push(format!("no-wake: a response was accepted into slot {} but the task waiting on it was not woken", k));
+                }
                 if after[k].0 == 6 && before[k].0 != 6 {
                     self.accepted[k] = Some(bytes[16..16 + plen].to_vec());
                     // routing: the frame's first index must be this request's first index
@@ -527,10 +566,12 @@ impl World {
             self.ops.push(format!("{{\"o\":\"poll\",\"i\":{},\"expired\":{},\"retries\":{}}}", i, expired, retries));
         }
         self.poll_was = None;
-        let waker = Arc::new(NoopWake).into();
+        WAKE_MD.with(|m| m.set(Some(self.md)));
+        let waker = Arc::new(SlotWake(i)).into();
         let mut cx = Context::from_waker(&waker);
         let r = Pin::new(&mut h.fut).poll(&mut cx);
         self.win_poll = false;
+        if r.is_pending() { self.waiting[i] = true; } else { self.waiting[i] = false; }
         let rt_after = if expired && retries > 0 { retries - 1 } else { retries };
         if windowed {
             match self.poll_was.take() {
@@ -1007,6 +1048,7 @@ fn new_world<const N: usize, const D: usize>(mode: &str) -> Box<World> {
         full: mode == "c05",
         mode: mode.to_string(),
         oracle: Vec::new(),
+        waiting: vec![false; 64],
         windows: Vec::new(),
         plan: [0; 5],
         win_rx: None,
